@@ -387,6 +387,17 @@ def const_under(F, body, op, blocks, depth=0):
         return op['c'].get('v')
     pl = op_place(op)
     ds = [d for d in body.defs().get(pl['l'], []) if d.b in blocks and d.kind in ('assign', 'call')]
+    if len(ds) == 1 and ds[0].kind == 'call' and not pl['p']:
+        # `u64::from(opt.is_some())`: a tag computed from which variant an Option built under this arm holds
+        c = ds[0].call
+        if c.is_(r'^std::convert::(From::from|Into::into)$') and c.args and body.local_ty(op_local(c.args[0]) or 0) == 'bool':
+            v = const_under(F, body, c.args[0], blocks, depth + 1)
+            return None if v is None else int(bool(v))
+        if c.is_(r'^std::option::Option::<T>::(is_some|is_none)$') and c.args:
+            var = variant_under(F, body, c.args[0], blocks, depth + 1)
+            if var in ('Some', 'None'):
+                return int((var == 'Some') == c.name.endswith('is_some'))
+        return None
     if len(ds) != 1 or ds[0].kind != 'assign' or ds[0].lhs['p']:
         return None
     rv = ds[0].rv
@@ -401,6 +412,34 @@ def const_under(F, body, op, blocks, depth=0):
         return const_under(F, body, rv['a'], blocks, depth + 1) if not fp else None
     if rv['k'] == 'agg' and rv.get('tuple') and fp and fp[0].isdigit() and int(fp[0]) < len(rv['ops']) and len(fp) == 1:
         return const_under(F, body, rv['ops'][int(fp[0])], blocks, depth + 1)
+    return None
+
+
+def variant_under(F, body, op, blocks, depth=0):
+    """Variant held by an Option / enum operand when only the definitions located in `blocks` can have run."""
+    if op is None or depth > 10 or not is_place(op):
+        return None
+    pl = op_place(op)
+    ds = [d for d in body.defs().get(pl['l'], []) if d.b in blocks and d.kind == 'assign' and not d.lhs['p']]
+    if len(ds) != 1:
+        return None
+    rv = ds[0].rv
+    fp = [x for x in field_path(pl) if x != '*']
+    if rv['k'] == 'ref':
+        q = rv['pl']
+        return variant_under(F, body, {'cp': {'l': q['l'], 'p': list(q['p']) + [e for e in pl['p'] if e != '*']}}, blocks, depth + 1)
+    if rv['k'] == 'use' and is_place(rv['a']):
+        q = op_place(rv['a'])
+        return variant_under(F, body, {'cp': {'l': q['l'], 'p': list(q['p']) + list(pl['p'])}}, blocks, depth + 1)
+    if rv['k'] == 'agg' and rv.get('tuple') and fp and fp[0].isdigit() and int(fp[0]) < len(rv['ops']):
+        o = rv['ops'][int(fp[0])]
+        if not is_place(o):
+            return None
+        q = op_place(o)
+        rest = [e for e in pl['p'] if e != '*'][1:]
+        return variant_under(F, body, {'cp': {'l': q['l'], 'p': list(q['p']) + rest}}, blocks, depth + 1)
+    if rv['k'] == 'agg' and 'variant' in rv and not fp:
+        return rv['variant']
     return None
 
 
